@@ -221,7 +221,7 @@ ScanEnd(i, ename) == IF HasNext(i) /\ ~StartsEnd(i, ename) THEN ScanEnd(i+1, ena
 StepSKIP ==
   LET fr == Top
       q == ScanEnd(tp, fr.ename)
-      body == [c |-> "Text", s |-> JoinToks(tp, q - tp), p |-> IF tp <= NT THEN toks[tp].p ELSE tp - 1] IN
+      body == [c |-> "Raw", s |-> JoinToks(tp, q - tp), p |-> IF tp <= NT THEN toks[tp].p ELSE tp - 1] IN
   IF ~StartsEnd(q, fr.ename) THEN Raise("EOFError")
   ELSE /\ tp' = q + 5       \* Dev_SkipEndFixedLength: src.forward(5) - exact for single-token names
        /\ stack' = Deliver(Pop, Node("env", fr.ename, "", <<>>, fr.args, << TextN(body) >>, fr.pos))
